@@ -16,6 +16,44 @@ from . import refcodec as R
 from .vtime import VirtualLoop, settle
 
 
+class Delay:
+    """A handler may return Delay(value, delay, done) to ask its wrapper to
+    pause (virtual seconds on the asyncio drive, milliseconds of real sleep on
+    the threaded drive) before completing with `value`."""
+
+    def __init__(self, value, delay, done=None):
+        self.value = value
+        self.delay = delay
+        self.done = done
+
+
+def wrap_handler(fn, is_async, coroutine):
+    """Wrap a plain function as the kind of handler to register."""
+    if is_async and coroutine:
+        async def h(*a):
+            r = fn(*a)
+            if isinstance(r, Delay):
+                if r.delay:
+                    await asyncio.sleep(r.delay)
+                if r.done:
+                    r.done()
+                return r.value
+            return r
+    else:
+        def h(*a):
+            r = fn(*a)
+            if isinstance(r, Delay):
+                if r.delay and not is_async:
+                    import time
+                    time.sleep(r.delay * 0.001)
+                if r.done:
+                    r.done()
+                return r.value
+            return r
+    h.__name__ = getattr(fn, '__name__', 'h')
+    return h
+
+
 class ErrorLog(logging.Handler):
     def __init__(self):
         super().__init__(level=logging.WARNING)
@@ -224,7 +262,8 @@ class SyncDrive(_BaseDrive):
                                        'logger': 'thread'})
 
     def on(self, event, fn, namespace=None, coroutine=None):
-        self.sio.on(event, fn, namespace=namespace)
+        self.sio.on(event, wrap_handler(fn, False, False),
+                    namespace=namespace)
 
     def open(self, environ=None):
         from engineio import socket as eio_socket
@@ -323,13 +362,8 @@ class AsyncDrive(_BaseDrive):
         self.run(nop())
 
     def on(self, event, fn, namespace=None, coroutine=True):
-        if coroutine:
-            async def h(*a):
-                return fn(*a)
-            h.__name__ = getattr(fn, '__name__', 'h')
-            self.sio.on(event, h, namespace=namespace)
-        else:
-            self.sio.on(event, fn, namespace=namespace)
+        self.sio.on(event, wrap_handler(fn, True, coroutine),
+                    namespace=namespace)
 
     def open(self, environ=None):
         from engineio import async_socket
